@@ -13,7 +13,9 @@ from mc import core, impl, structcheck, obscheck  # noqa: F401
 from mc.impl import build, nfa
 from mc.checks import C02
 
-PROFILES = [('addrem-noS', 6000, 40000)]
+# the tail profile (thorough only) reaches credit / note / lyric / metronome / part-list five additions deep with forward
+# placements and judges every removal there (the trigger depth of seeded change C11-h2)
+PROFILES = [('addrem-noS', 6000, 40000), ('xaddrem-noS@fwd', 0, 40000)]
 CHUNK = 40
 
 
